@@ -99,7 +99,8 @@ impl Number {
                 config
             } else {
                 FmtFloatConfig::default()
-                    .max_significant_digits(options.significant_digits as u8)
+                    // pretty_dtoa takes a u8 and panics for 0 significant digits
+                    .max_significant_digits(options.significant_digits.clamp(1, 255) as u8)
                     .add_point_zero(false)
                     .lower_e_break(-6)
                     .upper_e_break(6)
